@@ -301,10 +301,10 @@ Print Assumptions C03_glue_na_path_ex.
 
 (* NDP options.  RawOption.marshal — and through it LinkLayerAddress, MTU, PrefixInformation,
    RecursiveDNSServer and DNSSearchList .marshal as modelled by SEND — is inverted by the RFC 4861 4.6
-   reference option decoder: (type, value) pairs in order, for every Length octet below 32 (above, the
-   library's uint8 product Length*8 wraps). *)
+   reference option decoder: (type, value) pairs in order, for every option list that marshals (the uint8
+   product Length*8 of RawOption.marshal was repaired by SEND in 5a1aeef; no hypothesis on Length is left). *)
 Theorem C03_glue_nd_options_rt : forall (l : list raw3) ob,
-  Forall len_ok l -> SendNdp.cat_opts (map marshal_raw l) = Some ob ->
+  SendNdp.cat_opts (map marshal_raw l) = Some ob ->
   ref_nd_options (S (length ob)) ob = Some (map decoded_raw l).
 Proof. exact nd_options_rt. Qed.
 Print Assumptions C03_glue_nd_options_rt.
@@ -314,7 +314,7 @@ Theorem C03_glue_ra_path : forall c (src dst : SendBase.addr) (l : list raw3) ob
   length junk = SendBase.EthMaxSize -> length (SendBase.host_mac c) = 6%nat -> length (SendBase.a_mac dst) = 6%nat ->
   length (SendBase.a_ip src) = 16%nat -> length (SendBase.a_ip dst) = 16%nat ->
   bytes_ok (SendBase.a_ip src) -> bytes_ok (SendBase.a_ip dst) ->
-  Forall len_ok l -> SendNdp.cat_opts (map marshal_raw l) = Some ob -> bytes_ok ob ->
+  SendNdp.cat_opts (map marshal_raw l) = Some ob -> bytes_ok ob ->
   (70 + length ob <= SendBase.EthMaxSize)%nat ->
   exists f ipb icmpb,
     Send.icmp6_send_packet c src dst (SendNdp.ra_body ob) junk = Ok [f] /\ length f = (70 + length ob)%nat /\
